@@ -199,7 +199,10 @@ def check_fanout(ctx, R):
         # every result is added to an accumulator on every path; that the accumulator is what is returned is judged
         # over the path set (a later filtering loop is enumerated independently of the delivery loop, so single paths
         # with "one delivery, zero filter iterations" are infeasible combinations)
-        if len(ladds) < ncalls or not rets:
+        # (a result found to be None carries no backpressure and may be skipped)
+        nones = [e for e in evs if e.kind == 'COND' and e.c is None and isinstance(e.a, str) and e.a.replace(' ', '').endswith('isNone')
+                 and e.b is True]
+        if len(ladds) + len(nones) < ncalls or not rets:
             bad = evs
         if rets and rets[-1].b and ({'x', 'p:x'} & set(rets[-1].b)):
             returned_somewhere = True
